@@ -841,7 +841,10 @@ func TestCheck(t *testing.T) {
 				continue
 			}
 			f := f
-			f.Focus = pl.focus
+			// the exhaustive O1 pass over the prefixes of the (long, fixed-shape)
+			// native keys is done on the families single and multi; elsewhere and
+			// in the shape plans it enumerates the U instances' keys
+			f.Focus = pl.focus || (f.Name != "single" && f.Name != "multi")
 			sc, err := chainx.NewScenario(f.Family, f.Pad, tplByName(pl.names...))
 			if err != nil {
 				fmt.Println("CHECK-ERROR: cannot build the preamble of", f.Name, err)
